@@ -34,6 +34,8 @@ func init() {
 			{ID: "C02.R9", Floor: 1, Doc: "the sign extension of a short varint subtracts exactly 2^(8*len)", Run: signExtendAmount},
 			{ID: "C02.R10", Floor: 4, Doc: "element loops of the tuple / UDT decoders consume every element they pass over (=C12.R11)", Run: c12r11},
 			{ID: "C02.R11", Floor: 6, Doc: "duration vints: zig-zag terms, length, marker and payload order agree with the specification on their finite domains (=C12.R6)", Run: c12r6},
+			{ID: "C02.R15", Floor: 1, Doc: "decoding a map replaces the destination: every SetMapIndex is preceded on every path by setting the destination to a fresh map", Run: c02FreshMap},
+			{ID: "C02.R16", Floor: 3, Doc: "time values are converted to milliseconds / days from Unix() and Nanosecond() (exact over the whole range of time.Time), never through UnixNano(), which overflows outside 1678..2262", Run: c02NoUnixNano},
 			{ID: "C02.R14", Floor: 10, Doc: "sibling agreement: every marshal<Type>(info, value) encoder has an explicit answer for the unset marker ((nil, nil); tuples and UDTs: the unsupported error)", Run: c02r14},
 			{ID: "C02.R13", Floor: 1, Doc: "no integer product of a decoded wire value can overflow its type (unit conversions of timestamps and dates divide before they multiply)", Run: c02r13},
 			{ID: "C02.R12", Floor: 3, Doc: "every decoded element gets storage of its own (=C12.R12)", Run: c12r12},
